@@ -8,7 +8,7 @@ PROP = {
                                                                  # several broker checks run concurrently
     "search_s": 300,
     "assumptions": [
-        "non-ordered mode only (enable_ordered_proxy = true is not modelled)",
+        "both modes of MetaStore are modelled (enable_ordered_proxy = false / true; a history of an ordered-mode broker starts with the pseudo-operation Op.setOrdered, see notes/ordered.md); about a quarter of the generated cases run MetaStore::new(true)",
         "HashMap-order dependent allocation choices are fed from the implementation and validated by the model's "
         "allowed-set check; the epoch theorems hold for every choice, allowed or not",
         "epochs do not wrap (u64; modelled as Nat)",
@@ -38,8 +38,8 @@ CHECK = {
             "two-state epoch oracle (incl. the ghost map of the largest epoch ever served per address) is evaluated on "
             "the implementation's served views after every operation.",
     "design_ref": "§6 C04",
-    "note": "Trusted: Lean kernel; hand-written broker model (validated differentially each run); ordered-proxy mode "
-            "unmodelled; restore excluded here (C13). Observation (not a violation): the written cluster's epoch is not "
+    "note": "Trusted: Lean kernel; hand-written broker model (validated differentially each run); both proxy-allocation modes "
+            "modelled; restore excluded here (C13). Observation (not a violation): the written cluster's epoch is not "
             "always the new global epoch - auto_change_node_number that frees nodes and then fails in "
             "migrate_slots_to_scale_down leaves cluster epoch G+1 under global epoch G+2 and returns an error although "
             "the store changed (proved as C04_cluster_frame_not_exact, replay corpus/C04/broker.changenum.ops).",
